@@ -391,6 +391,8 @@ theorem reset_some (r : Recv) (code fo received maxData : Nat) (hf : fo < 2 ^ 62
   · unfold Recv.resetTail
     have hc := creditConsumedBy_some r fo received maxData hf hr
     split
+    · simp
+    split
     · rename_i h; exact absurd h hc
     · simp
     · split <;> simp
